@@ -33,7 +33,8 @@ def scenarios(draw):
     kind = draw(st.sampled_from(['create', 'create', 'update', 'sub', 'daemon', 'timer', 'startup', 'resume', 'updel']))
     delays = st.sampled_from([0.0, 0.5, 1.0, 3.0, 7.0])
     steps = st.one_of(st.builds(lambda d: {'o': 'temp', 'delay': d}, delays), st.builds(lambda d: {'o': 'temp', 'delay': d}, delays),
-                      st.just({'o': 'err'}), st.just({'o': 'err'}), st.just({'o': 'perm'}), st.just({'o': 'ok'}))
+                      st.just({'o': 'err'}), st.just({'o': 'err'}), st.just({'o': 'perm'}), st.just({'o': 'ok'}),
+                      st.builds(lambda d: {'o': 'temp', 'delay': d, 'sub': True}, delays), st.just({'o': 'perm', 'sub': True}))
     h = {'id': 'hx', 'script': draw(st.lists(steps, min_size=1, max_size=6)),
          'errors': draw(st.sampled_from([None, None, 'temporary', 'permanent', 'ignored'])),
          'retries': draw(st.sampled_from([None, None, 1, 2, 3])),
